@@ -25,6 +25,8 @@ missing = [t for t in base['stable_pass'] if res.get(t) != 'pass']
 meta["suite_stable_passing"] = f"{len(base['stable_pass'])-len(missing)}/{len(base['stable_pass'])}"
 rc, o = sh("git diff --stat | tail -1", wt); meta["size"] = o.strip()
 sh("git checkout -- . && git clean -fdq", wt)
+import fcntl
+_lk = open("/tmp/repo.lock", "w"); fcntl.flock(_lk, fcntl.LOCK_EX)   # /repo is shared: one evaluation at a time
 assert sh("git status --porcelain", "/repo")[1].strip() == "", "repo dirty"
 rc, o = sh(f"git apply {patch}", "/repo"); meta["applies_to_repo"] = rc == 0
 alarms = {}
@@ -40,6 +42,7 @@ if rc == 0:
             if len(alarms[cur]) < 4: alarms[cur].append(m2.group(1) + " :: " + m2.group(2)[:200])
     meta["checker_failures"] = [l[:200] for l in p.stdout.split("\n") if l.startswith("CHECKER-FAILURE")][:3]
 sh("git checkout -- . && git clean -fdq", "/repo")
+fcntl.flock(_lk, fcntl.LOCK_UN)
 meta["alarms"] = alarms
 d = f"/verif/seeded/{pid}-r3-refactor"
 os.makedirs(d, exist_ok=True)
